@@ -62,7 +62,15 @@ Definition check (c : case) : bool :=
   | CReproj c ss ds A F ttol stol p al cmp e =>
       res_eqb (info_eqb cmp) (reproject_linear c ss ds A F ttol stol p al) e
   | CReprojNL c back fwd sc_at sc ss ds p al e =>
-      res_eqb (info_eqb true)
-              (reproject_nonlinear c (tab_fn back) (tab_fn fwd)
-                                   (fun pt => if qq_eqb pt sc_at then sc else Err EOther) ss ds p al) e
+      let r := reproject_nonlinear c (tab_fn back) (tab_fn fwd)
+                                   (fun pt => if qq_eqb pt sc_at then sc else Err EOther) ss ds p al in
+      res_eqb (info_eqb true) r e &&
+      (* the tables are the implementation's calls in order: it must have handed exactly the model's
+         sampled boundaries (5 points per side, same order) to the point transforms *)
+      list_eqb qq_eqb (map fst back) (boundary_pts ((0, fst ds), (0, snd ds)) 5) &&
+      match r with
+      | Ok i => if roi_empty (roi_src i) then match fwd with [] => true | _ => false end
+                else list_eqb qq_eqb (map fst fwd) (boundary_pts (roi_src i) 5)
+      | Err _ => true
+      end
   end.
